@@ -536,7 +536,7 @@ class CircuitTemplate(AbstractBaseTemplate):
                 data.append(out)
         if multi_index:
             columns = MultiIndex.from_tuples(columns)
-        results = DataFrame(data=np.asarray(data).T, columns=columns, index=time_vec)
+        results = DataFrame(data=np.asarray(data).reshape(len(columns), -1).T, columns=columns, index=time_vec)
 
         # store current state of the network
         for key in net.compute_graph.state_vars:
